@@ -103,8 +103,23 @@ def _iter_spec(rng: random.Random, name: str, maxlen: int = 8) -> dict:
         return {"tool": name, "srcs": [keys_seq(rng, maxlen)], "fns": [], "params": params}
     if name == "iter_sentinel":
         ks = keys_seq(rng, maxlen, 4)
-        kind = rng.choice(["equal", "equal", "absent", "identical", "nan"])
+        kind = rng.choice(["equal", "equal", "absent", "identical", "nan", "touchy", "onesided"])
         spec = {"tool": name, "srcs": [ks], "fns": ["nullary"], "params": {}}
+        if kind == "touchy":
+            # an item whose comparison with the sentinel FAILS (ValueError, KeyError, ...): the iteration ends with
+            # that exception, right there
+            exc = rng.choice(["ValueError", "ValueError", "KeyError", "LookupError", "RuntimeError"])
+            spec["raw"] = True
+            spec["srcs"] = [[rng.choice([["X", 1, None], ["X", 2, None], ["X", 3, exc], ["X", 5, None]]) for _ in ks]]
+            spec["params"]["sentinel"] = ["raw", ["X", rng.choice([5, 9]), None]]
+            return spec
+        if kind == "onesided":
+            # equality that depends on which operand is asked: the builtin evaluates ``sentinel == value``
+            spec["raw"] = True
+            mine, theirs = rng.choice([("always", "never"), ("never", "always")])
+            spec["srcs"] = [[rng.choice([["Eq", theirs, i], ["Eq", theirs, i], 7]) for i, _ in enumerate(ks)]]
+            spec["params"]["sentinel"] = ["raw", ["Eq", mine, 99]]
+            return spec
         if kind == "equal":
             spec["params"]["sentinel"] = ["item", rng.randrange(4), "sentinel"]
         elif kind == "absent":
@@ -334,7 +349,10 @@ def agg_spec(rng: random.Random, name: str, maxlen: int = 8) -> dict:
     if name == "dict":
         if cls in ("unorderable", "nan") and rng.random() < 0.7:
             spec["raw"] = True
-            pool = [["T", 1, 2], ["T", 1], ["T", 1, 2, 3], ["T", ["L", 1], 2], 5, "ab", "abc", ["L", 3, 4], ["T", 2, 3]]
+            pool = [["T", 1, 2], ["T", 1], ["T", 1, 2, 3], ["T", ["L", 1], 2], 5, "ab", "abc", ["L", 3, 4], ["T", 2, 3],
+                    # pairs (and non-pairs) that are one-shot iterators / generators: iterable, but neither sized
+                    # nor indexable
+                    ["It", 4, 5], ["It", 1, 2, 3], ["It", 1], ["It"], ["Gn", 6, 7], ["Gn", 1], ["Gn", 1, 2, 3], "", ["T"], ["L"]]
             spec["srcs"] = [raw_seq(rng, pool, 5)]
         else:
             n = rng.randint(0, maxlen)
